@@ -47,6 +47,9 @@ impl WorkerStats {
         *self.by_policy.entry(r.policy.clone()).or_insert(0) += 1;
         *self.by_tasks.entry(format!("{:02}", r.n_tasks)).or_insert(0) += 1;
         *self.by_class.entry(ep.class.clone()).or_insert(0) += 1;
+        for p in &ep.patterns {
+            self.oracle.probe(&format!("pattern:{p}"));
+        }
         if self.samples.len() < 2 && r.sched.switches_inside_op > 0 && ep.n_ops() <= 24 && ep.inputs.iter().all(|i| i.len() < 80) {
             self.samples.push(json!({
                 "episode": ep,
@@ -749,6 +752,7 @@ fn deep_counter_episodes(seed: u64) -> Vec<Episode> {
         shared_builders: vec![],
         shared_qrs: vec![],
         tasks: vec![ops.into_iter().map(plain).collect()],
+        patterns: vec![],
     };
     let fresh_qr = Op::BuildFresh { input: 0, mode: None, ecl: Some(1), version: None, mask: None, out: 0 };
     vec![
